@@ -133,6 +133,8 @@ def main():
     nid = [0]
 
     def emit(e):
+        if any("terminated by timeout" in r for r in e.get("returned", []) + e.get("expected", [])):
+            return   # a wall-clock budget was hit in one of the two runs: not reproducible
         nid[0] += 1
         e["id"] = nid[0]
         events.append(e)
